@@ -19,7 +19,8 @@ RULE = ('Exhaustive: the hierarchy literal and the printed tree() against the RE
         'pairs of subsets of size <=2 (704 x 704 = 495,616), match() for all 37 categories on every pair in the '
         'thorough tier and on a seed-dependent 1/16 of the pairs in the quick tier; None arguments; invalid members. '
         'Random: Hypothesis-generated larger sets (size 0..10) in the four argument shapes set/list/tuple/bare member, '
-        'through both TokenCategory and TokenCategoryHierarchyMapper.  A case is one include set paired with every '
+        'through TokenCategory, TokenCategoryHierarchyMapper and the export-option entry point '
+        '(Generic.parse_options_to_ExportOptions).  A case is one include set paired with every '
         'exclude set (exhaustive part) or one (include, exclude, shape) triple (random part); an (include, exclude) pair '
         'is non-trivial when the selection is neither empty nor everything and the exclusion actually removes '
         'something from the inclusion closure; distinct_nontrivial counts such pairs.')
@@ -199,6 +200,13 @@ def check_random(case):
     got = api.valid(include=incl, exclude=excl)
     if {c.name for c in got} != exp:
         raise Bad('valid-random', f'valid(include={I}[{case["ishape"]}], exclude={X}[{case["xshape"]}]) = {names(got)}, tree says {sorted(exp)}')
+    # the same selection as the export entry points compute it (kernpy.dumps / dump hand their include / exclude here)
+    try:
+        sel = kp.core.generic.Generic.parse_options_to_ExportOptions(include=incl, exclude=excl).token_categories
+    except Exception as e:  # noqa
+        raise Bad('export-options-raised', f'parse_options_to_ExportOptions(include={I}[{case["ishape"]}], exclude={X}[{case["xshape"]}]) raised {e!r}')
+    if {c.name for c in sel} != exp:
+        raise Bad('export-options-selection', f'export options for include={I}[{case["ishape"]}], exclude={X}[{case["xshape"]}] select {names(sel)}, tree says {sorted(exp)}')
     for n in (case['probe'],) + tuple(NAMES[::5]):
         m = api.match(cat(n), include=incl, exclude=excl)
         if m != bool(cats.DESC_STAR[n] & exp):
